@@ -44,6 +44,16 @@ under `l.lock` (action `deliver`, which updates the loop-side record `reportedSt
 a previous stage, runs `checkForDeadlocks`) and the return into `run()` (`dCbRet`, `eCbRet`, `transCbRet X`,
 `complCbRet X`).  `OnStepStageFailure` calls (`eGotTrue`, `failedCb X`, `tailFail`) touch neither record nor detector.
 
+Since be7655c `State()` also answers `running` for a raw `waiting_for_input` when the step's context is cancelled
+(a stop condition or a Close has arrived and `run()` has not reacted yet).
+
+Failure tail (finding F11, loop side): when the loop processes `OnStepComplete` it may call
+`markRemainingStagesUnresolvable(stepID)`, which settles every stage the step has not gone through
+(`l.finishedStages`).  The model is parametrised by the flag `marks` (= the loop does that); the loop-side record carries
+`finishedStages` and `settledStages`, the step carries the stages its post-completion `OnStepStageFailure` notifications
+are about (`tailFails` = the argument chain of `markStageFailures` plus `markNotClosable`), and the ghost field `path`
+remembers which ending `run()` took.
+
 Core Lean only.
 -/
 import Arca.Gen.Consts
@@ -59,6 +69,46 @@ inductive RState where
 inductive Stage where
   | deploy | deployFailed | enabling | disabled | starting | running | outputs | crashed | closed
   deriving DecidableEq, Repr
+
+/-- every stage of the plugin lifecycle `run()` can be in (the `cancelled` stage is never entered) -/
+def allStages : List Stage :=
+  [.deploy, .deployFailed, .enabling, .disabled, .starting, .running, .outputs, .crashed, .closed]
+
+/-- `markStageFailures(first, _)`: the fall-through chain (tied to `Arca.Gen.pluginFailChain` in the proofs) -/
+def failChain : Stage → List Stage
+  | .enabling => [.enabling, .disabled, .starting, .running, .outputs]
+  | .disabled => [.disabled, .starting, .running, .outputs]
+  | .starting => [.starting, .running, .outputs]
+  | .running => [.running, .outputs]
+  | .outputs => [.outputs]
+  | _ => []
+
+/-- which ending `run()` took (ghost) -/
+inductive Path where
+  | main                -- no ending chosen yet
+  | closedDeploy        -- closedEarly(enabling, true): context done while waiting for the deploy input
+  | closedAfterDeploy   -- closedEarly(enabling, false): context done right after the deployment
+  | closedEnable        -- closedEarly(starting, true)
+  | closedStart         -- closedEarly(running, true)
+  | deployFailed        -- deployFailed
+  | disabled            -- transitionToDisabled
+  | startFailed         -- startFailed
+  | runFailed           -- runFailed
+  | ok                  -- result without error
+  deriving DecidableEq, Repr
+
+/-- the stages the `OnStepStageFailure` notifications AFTER the completion are about, per ending -/
+def tailOf : Path → List Stage
+  | .main => []
+  | .closedDeploy => failChain .enabling
+  | .closedAfterDeploy => failChain .enabling
+  | .closedEnable => failChain .starting
+  | .closedStart => failChain .running
+  | .deployFailed => failChain .enabling ++ [.closed]
+  | .disabled => failChain .starting ++ [.closed]
+  | .startFailed => failChain .running ++ [.closed]
+  | .runFailed => failChain .outputs ++ [.closed]
+  | .ok => []
 
 inductive Pc where
   | dLock | dCb | dCbRet | dTry | dGotEarly | dSetWaiting | dWait | dGotLate | dDeploying
@@ -92,9 +142,13 @@ structure St where
   runOcc : Bool           -- an item sits in r.runInput      (capacity 1)
   early : Bool            -- startStage's local `inputReceivedEarly`
   ctxDone : Bool          -- r.ctx cancelled
+  tailFails : List Stage  -- the stages of the failure notifications that follow the completion on the chosen ending
+  path : Path             -- ghost: the ending chosen
   -- the loop side (workflow.go, under l.lock)
   reportedStage : Option Stage   -- l.reportedStages[stepID]
   completed : Bool               -- stepID ∈ l.completedSteps
+  finishedStages : List Stage    -- l.finishedStages[stepID]: the previous stages of the reports processed
+  settledStages : List Stage     -- the stages markRemainingStagesUnresolvable has declared unresolvable
   deriving DecidableEq, Repr
 
 /-- the state `Start` returns in -/
@@ -111,8 +165,12 @@ def init : St :=
     runOcc := false
     early := false
     ctxDone := false
+    tailFails := []
+    path := .main
     reportedStage := none
-    completed := false }
+    completed := false
+    finishedStages := []
+    settledStages := [] }
 
 inductive Act where
   -- the engine (any goroutine): ProvideStageInput / Close / stop condition
@@ -145,7 +203,20 @@ def afterTrans (s : St) : Stage → Option Pc
   | .deploy => none
   | .enabling => none
 
-def step (s : St) : Act → Option St
+/-- the previous stage an `OnStageChange` into `tgt` reports -/
+def prevOf : Stage → Stage
+  | .starting => .enabling
+  | .disabled => .enabling
+  | .running => .starting
+  | .outputs => .running
+  | .crashed => .running
+  | _ => .deploy
+
+/-- choose an ending: remember it and the failure notifications it will send after the completion -/
+def choose (s : St) (p : Path) (pc : Pc) : St := { s with pc := pc, path := p, tailFails := tailOf p }
+
+/-- `marks` = the loop calls `markRemainingStagesUnresolvable` when it processes `OnStepComplete` -/
+def step (marks : Bool) (s : St) : Act → Option St
   | .provideDeploy =>
     -- provideDeployInput: the only handler that touches r.state
     if s.deployAvail then none
@@ -166,7 +237,7 @@ def step (s : St) : Act → Option St
     | .dGotEarly => some { s with pc := .dDeploying, state := .running }
     | .dSetWaiting => some { s with pc := .dWait, state := .waiting }
     | .dGotLate => some { s with pc := .dDeploying, state := .running }
-    | .spCheck => if s.ctxDone then some { s with pc := .transLock .closed .running } else some { s with pc := .eLock }
+    | .spCheck => if s.ctxDone then some (choose s .closedAfterDeploy (.transLock .closed .running)) else some { s with pc := .eLock }
     | .eLock => some { s with pc := .eCb, stage := .enabling, state := .waiting }
     | .eCbRet => some { s with pc := .eWait }
     | .sTry =>
@@ -184,9 +255,14 @@ def step (s : St) : Act → Option St
   | .deliver =>
     match s.pc with
     | .dCb => some { s with pc := .dCbRet, reportedStage := some .deploy }
-    | .eCb => some { s with pc := .eCbRet, reportedStage := some .enabling }
-    | .transCb tgt => if (afterTrans s tgt).isSome then some { s with pc := .transCbRet tgt, reportedStage := some tgt } else none
-    | .complCb tgt => some { s with pc := .complCbRet tgt, completed := true }
+    | .eCb => some { s with pc := .eCbRet, reportedStage := some .enabling, finishedStages := s.finishedStages ++ [.deploy] }
+    | .transCb tgt =>
+      if (afterTrans s tgt).isSome then
+        some { s with pc := .transCbRet tgt, reportedStage := some tgt, finishedStages := s.finishedStages ++ [prevOf tgt] }
+      else none
+    | .complCb tgt =>
+      some { s with pc := .complCbRet tgt, completed := true, finishedStages := s.finishedStages ++ [tgt],
+                    settledStages := (if marks then allStages.filter (fun x => !(s.finishedStages ++ [tgt]).contains x) else []) }
     | _ => none
   | .deliverFailure =>
     match s.pc with
@@ -199,18 +275,25 @@ def step (s : St) : Act → Option St
     | .dWait => if s.deployOcc then some { s with pc := .dGotLate, deployOcc := false } else none
     | .eWait =>
       if s.enabledOcc then
-        some { s with pc := (if s.enabledVal then .eGotTrue else .transLock .disabled .running), enabledOcc := false }
+        some (if s.enabledVal then { s with pc := .eGotTrue, enabledOcc := false }
+              else choose { s with enabledOcc := false } .disabled (.transLock .disabled .running))
       else none
     | .sWait => if s.runOcc then some { s with pc := .sGotLate, runOcc := false } else none
     | _ => none
   | .ctx =>
-    if s.ctxDone ∧ (s.pc = .dWait ∨ s.pc = .eWait ∨ s.pc = .sWait) then some { s with pc := .failedLock .closed } else none
+    if s.ctxDone then
+      match s.pc with
+      | .dWait => some (choose s .closedDeploy (.failedLock .closed))
+      | .eWait => some (choose s .closedEnable (.failedLock .closed))
+      | .sWait => some (choose s .closedStart (.failedLock .closed))
+      | _ => none
+    else none
   | .deployOk => if s.pc = .dDeploying then some { s with pc := .spCheck } else none
-  | .deployFail => if s.pc = .dDeploying then some { s with pc := .transLock .deployFailed .running } else none
+  | .deployFail => if s.pc = .dDeploying then some (choose s .deployFailed (.transLock .deployFailed .running)) else none
   | .startOk => if s.pc = .sSchema then some { s with pc := .transLock .running .running } else none
-  | .startFail => if s.pc = .sSchema then some { s with pc := .failedLock .crashed } else none
-  | .resultOk => if s.pc = .rWait then some { s with pc := .transLock .outputs .running } else none
-  | .resultErr => if s.pc = .rWait then some { s with pc := .transLock .crashed .running } else none
+  | .startFail => if s.pc = .sSchema then some (choose s .startFailed (.failedLock .crashed)) else none
+  | .resultOk => if s.pc = .rWait then some (choose s .ok (.transLock .outputs .running)) else none
+  | .resultErr => if s.pc = .rWait then some (choose s .runFailed (.transLock .crashed .running)) else none
 
 /-- everything by which the step moves on WITHOUT a further call of the engine: `run()`'s own moves and the answers of
     the deployer / plugin it is waiting for -/
@@ -220,7 +303,7 @@ def progressActs : List Act :=
 /-- The step cannot make progress without a further action of the engine: none of the progress moves is possible.
     (No input sits unconsumed in a channel it is selecting on, its context is not cancelled, no report is pending,
     `run()` is not between two of its own actions, and it is not waiting for the deployer or the plugin.) -/
-def Quiescent (s : St) : Bool := progressActs.all (fun a => (step s a).isNone)
+def Quiescent (s : St) : Bool := progressActs.all (fun a => (step true s a).isNone)
 
 /-! ## what the detector sees since e0ccfb1 -/
 
@@ -232,9 +315,10 @@ def currentStageInputAvailable (s : St) : Bool :=
   | .starting => s.runAvail
   | _ => false
 
-/-- what `State()` returns -/
+/-- what `State()` returns: a raw `waiting_for_input` is reported as `running` when the input of the current stage has
+    been provided (e0ccfb1) or the context is cancelled (be7655c) -/
 def reportedState (s : St) : RState :=
-  if s.state = .waiting ∧ currentStageInputAvailable s = true then .running else s.state
+  if s.state = .waiting ∧ (currentStageInputAvailable s = true ∨ s.ctxDone = true) then .running else s.state
 
 /-- how `countStates` counts the step (`State()`, then `CurrentStage()` against `l.reportedStages`, `l.completedSteps`;
     the two reads of the step are taken as one snapshot: between them only `run()` can move — inputs are provided under
@@ -262,7 +346,7 @@ def Settled (s : St) : Bool :=
    | .tailClose => true
    | _ => false)
 
-/-- the window that is left after e0ccfb1: the completion has been processed, the `OnStepStageFailure` notifications
+/-- the window that is left after e0ccfb1 when the loop does not mark the remaining stages: the completion has been processed, the `OnStepStageFailure` notifications
     that follow it (`markStageFailures`, `markNotClosable`: every ending except the successful one) have not -/
 def inFailureTail (s : St) : Bool :=
   match s.pc with
@@ -290,25 +374,36 @@ def owesCheck (s : St) : Bool :=
 
 /-- does executing `acts` from `s` contain the processing of a checking report after which the refinement is no longer
     at work (the check then sees the step as it is) -/
-def hasFaithfulCheck : St → List Act → Bool
+def hasFaithfulCheck (marks : Bool) : St → List Act → Bool
   | _, [] => false
   | s, a :: rest =>
-    match step s a with
-    | some s' => (a == .deliver && checkingReportPending s && !Refined s') || hasFaithfulCheck s' rest
+    match step marks s a with
+    | some s' => (a == .deliver && checkingReportPending s && !Refined s') || hasFaithfulCheck marks s' rest
     | none => false
 
-inductive Reachable : St → Prop where
-  | init : Reachable init
-  | step {s s' : St} (a : Act) : Reachable s → step s a = some s' → Reachable s'
+/-- the loop-side record -/
+def loopView (s : St) : Option Stage × Bool × List Stage × List Stage :=
+  (s.reportedStage, s.completed, s.finishedStages, s.settledStages)
 
-def execute : St → List Act → Option St
+/-- Nothing the step still does can change what the loop knows: it is settled, or it is in the failure tail and every
+    `OnStepStageFailure` notification still to come is about a stage the loop has already declared unresolvable
+    (re-marking an unresolvable node is a no-op in dgraph, and `notifySteps` then finds nothing newly ready). -/
+def Harmless (s : St) : Bool :=
+  Settled s || (inFailureTail s && s.tailFails.all (fun x => s.settledStages.contains x))
+
+inductive Reachable (marks : Bool) : St → Prop where
+  | init : Reachable marks init
+  | step {s s' : St} (a : Act) : Reachable marks s → step marks s a = some s' → Reachable marks s'
+
+def execute (marks : Bool) : St → List Act → Option St
   | s, [] => some s
   | s, a :: rest =>
-    match step s a with
-    | some s' => execute s' rest
+    match step marks s a with
+    | some s' => execute marks s' rest
     | none => none
 
-theorem execute_reachable {s : St} (hs : Reachable s) : ∀ (acts : List Act) (t : St), execute s acts = some t → Reachable t := by
+theorem execute_reachable {marks : Bool} {s : St} (hs : Reachable marks s) :
+    ∀ (acts : List Act) (t : St), execute marks s acts = some t → Reachable marks t := by
   intro acts
   induction acts generalizing s with
   | nil => intro t h; simp [execute] at h; exact h ▸ hs
